@@ -26,6 +26,21 @@ Qed.
 Lemma retry_loop_first {A} n (body : nat -> option A) v : body 0%nat = Some v -> retry_loop (S n) 0 body = Some v.
 Proof. intros H. simpl. rewrite H. reflexivity. Qed.
 
+(* random streams for functions with data-dependent loops: numpy.random.rand() takes the next
+   element of `us`, numpy.random.poisson(lam) the next element of `ns` (0 when exhausted) *)
+Definition draw (us : list R) : R * list R :=
+  match us with u :: t => (u, t) | [] => (0, []) end.
+Definition draw_poisson (lam : R) (ns : list Z) : Z * list Z :=
+  match ns with n :: t => (n, t) | [] => (0%Z, []) end.
+
+(* for _ in range(n): state = body(state) *)
+Fixpoint for_range {St} (n : nat) (body : St -> St) (s : St) : St :=
+  match n with O => s | S n' => for_range n' body (body s) end.
+
+Lemma for_range_inv {St} (P : St -> Prop) n (body : St -> St) s :
+  (forall x, P x -> P (body x)) -> P s -> P (for_range n body s).
+Proof. intros H. revert s. induction n as [|n IH]; intros s Hs; simpl; auto. Qed.
+
 (* numpy.interp(x, xp, fp) for non-decreasing xp, as numpy computes it: fp[0] left of the
    table, fp[-1] right of it, otherwise with j the LARGEST index such that xp[j] <= x:
    (fp[j+1]-fp[j])/(xp[j+1]-xp[j])*(x-xp[j]) + fp[j]   (at a repeated knot the last copy counts). *)
